@@ -19,7 +19,7 @@ EXTRACTION_DROPS = [
     "type annotations (parameters, returns, variable annotations)",
     "@overload stubs (only the last, real definition of a name is kept)",
     "comments / noqa / type: ignore markers",
-    "expression statements that call the module logger `log.*` (assumed effect-free)",
+    "the call of the module logger `log.*` itself (assumed effect-free); its argument expressions ARE evaluated",
 ]
 
 BUILTIN_EXC = {
